@@ -83,17 +83,26 @@ func replaySchedule(sys *System, e *Engine, tr []Action, silent bool) replayResu
 				if a.Mask&(1<<i) == 0 {
 					continue
 				}
+				if a.seq != nil { // the exact inputs of this send (claim, vote, re-signed copies)
+					for _, id := range a.seq[i] {
+						if x := e.msgs.get(id); x.Byz {
+							byzSent[x.Key] = true
+						}
+						apply(i, id)
+					}
+					continue
+				}
 				if a.Kind == 'B' {
 					c := e.msgs.intern(sys.claimMsg(sys.byz, m.H, m.R, m.T, m.BID, true))
 					apply(i, c.id)
 				}
 				apply(i, a.Msg)
 			}
-		case '|':
+		case '|', '~':
 			if nodes[3] != nil {
 				nodes[3] = nil
 			}
-		case 'w', 'v', 'x':
+		case 'w', 'v', 'l', 'x':
 		default:
 			res.err = fmt.Sprintf("unknown action %c", a.Kind)
 		}
